@@ -16,7 +16,9 @@
 
 #include <condition_variable>
 #include <mutex>
+#include <algorithm>
 #include <set>
+#include <thread>
 #include <sys/syscall.h>
 #include <unistd.h>
 
@@ -25,6 +27,7 @@ using tulz::ThreadPool;
 namespace {
 
 struct Cover {
+    uint64_t concurrentSubmits = 0;
     uint64_t programs = 0, ops = 0, submitted = 0, ran = 0, dropped = 0, stops = 0, clears = 0, drains = 0, restarts = 0, closures = 0;
     uint64_t stopsWithRunningTask = 0, clearsWithRunningTask = 0, stopsWithWorkerInPreBlock = 0, singleWorkerPrograms = 0, maxWorkersSeen = 0, nontrivialCases = 0;
     std::vector<uint64_t> fps;
@@ -50,6 +53,7 @@ struct Rec {
     int segment = 0;        // changes at every clear/stop: tasks of the current segment must run before a drain returns
     bool closure = false;
     unsigned dwellUs = 0;
+    int orderKey = -1;      // position in the submission order (tasks submitted simultaneously share one)
 };
 
 constexpr int kMaxTasks = 256;
@@ -164,6 +168,7 @@ struct Program {
         r.segment = segment;
         r.dwellUs = rng.chance(500) ? (unsigned) rng.below(30) : (unsigned) rng.below(200);
         r.closure = rng.chance(250);
+        r.orderKey = id;
         r.submit.store(spy::stamp());
         gPhase = "start";
         bool wasStopped = !pool->isRunning();
@@ -196,6 +201,35 @@ struct Program {
         uint64_t created = spy::counters().creates.load() - createsAtEpochStart;
         if ((int) created > maxThreads)
             fail("C08", "worker-count", "start", std::to_string(created) + " worker threads were created in one epoch with maximum " + std::to_string(maxThreads));
+        gPhase = "idle";
+    }
+
+    // Several threads hand tasks to a running pool at the same moment. The statement speaks of one owner; this
+    // goes beyond it, and the unchanged pool copes (queue and thread list are each under their mutex): the
+    // worker count must still respect the maximum.
+    void concurrentSubmit() {
+        if (!pool->isRunning() || nTasks + 8 >= kMaxTasks) return;
+        int k = (int) rng.range(3, 8);
+        note("multistart" + std::to_string(k));
+        gPhase = "start";
+        std::atomic<int> go{0};
+        std::vector<std::thread> th;
+        int first = nTasks;
+        for (int i = 0; i < k; ++i) {
+            int id = nTasks++;
+            Rec &r = gRecs[id];
+            r.epoch = gEpoch; r.segment = segment; r.dwellUs = 20; r.closure = false; r.orderKey = first;
+            r.submit.store(spy::stamp());
+            ++C.submitted;
+        }
+        for (int i = 0; i < k; ++i)
+            th.emplace_back([&, i] { while (!go.load()) sched_yield(); pool->start(new Task(first + i)); });
+        go.store(1);
+        for (auto &x : th) x.join();
+        createsAtEpochStart += (uint64_t) k;   // the submitter threads are the harness's own, not workers
+        ++C.concurrentSubmits;
+        int tc = pool->getThreadCount();
+        if (tc > maxThreads) fail("C08", "worker-count", "concurrent-start", "getThreadCount() = " + std::to_string(tc) + " after " + std::to_string(k) + " simultaneous start() calls with maximum " + std::to_string(maxThreads));
         gPhase = "idle";
     }
 
@@ -271,11 +305,14 @@ struct Program {
         if (gWrongArgument.load()) return fail("C07", "wrong-argument", "task", "a closure task received a damaged copy of the argument that was handed to start() as a temporary");
         if (maxThreads == 1) {
             // one worker: tasks run in submission order
-            uint64_t last = 0;
-            for (int i : ranOrder) {
-                uint64_t e = gRecs[i].runEnter.load();
-                if (e < last) return fail("C07", "not-fifo", "task", "single worker: task " + std::to_string(i) + " ran before an earlier submitted task");
-                last = e;
+            // (tasks handed over simultaneously by several threads have no order among themselves)
+            std::vector<std::pair<uint64_t, int>> byStart;
+            for (int i : ranOrder) byStart.push_back({gRecs[i].runEnter.load(), i});
+            std::sort(byStart.begin(), byStart.end());
+            int lastKey = -1;
+            for (auto &[e, i] : byStart) {
+                if (gRecs[i].orderKey < lastKey) return fail("C07", "not-fifo", "task", "single worker: task " + std::to_string(i) + " ran after a task that was submitted later");
+                lastKey = gRecs[i].orderKey;
             }
         }
     }
@@ -309,7 +346,8 @@ struct Program {
                 if (!gCaseFailed) stop(true);
                 continue;
             }
-            if (r < 560) submit();
+            if (r < 540) submit();
+            else if (r < 560) concurrentSubmit();
             else if (r < 660) drain();
             else if (r < 740) clear();
             else if (r < 860) stop(false);
@@ -394,7 +432,7 @@ int main(int argc, char **argv) {
     }
     rt::finish(rt::Json().kv("engine", "h_pool").kv("programs", C.programs).kv("ops", C.ops).kv("tasksSubmitted", C.submitted).kv("tasksRan", C.ran)
                    .kv("tasksDropped", C.dropped).kv("closureTasks", C.closures).kv("stops", C.stops).kv("clears", C.clears).kv("drains", C.drains)
-                   .kv("restarts", C.restarts).kv("stopsWithRunningTask", C.stopsWithRunningTask).kv("clearsWithRunningTask", C.clearsWithRunningTask)
+                   .kv("restarts", C.restarts).kv("concurrentSubmitBursts", C.concurrentSubmits).kv("stopsWithRunningTask", C.stopsWithRunningTask).kv("clearsWithRunningTask", C.clearsWithRunningTask)
                    .kv("stopsWithWorkerInPreBlockWindow", C.stopsWithWorkerInPreBlock).kv("singleWorkerPrograms", C.singleWorkerPrograms)
                    .kv("maxWorkersSeen", C.maxWorkersSeen).kv("nontrivialCases", C.nontrivialCases)
                    .kv("delaysCondEntry", k.condEntry.load()).kv("delaysAfterWake", k.afterWake.load()).kv("delaysOther", k.beforeLock.load() + k.afterUnlock.load() + k.beforeNotify.load() + k.threadStart.load())
